@@ -720,6 +720,8 @@ func (w *World) CheckSweep(out *Outcome, runs []*Obs) []Violation {
 				oracle := "outcome-varies-with-order"
 				if subst && w.staleVersionPattern(runs) && w.enumerationOrderCanDecide(out, runs) {
 					oracle = "outcome-varies-under-substitution"
+				} else if w.processorComponentTie() {
+					oracle = "varies-with-the-order-of-unordered-processors"
 				}
 				vs = append(vs, v("C10", oracle, "", fmt.Sprintf("no point of the program is tied, yet run %s ended %s (%s%s) and run %s ended %s (%s%s)",
 					label(runs[0]), outcome(runs[0]), runs[0].ErrText, runs[0].Panic, label(o), outcome(o), o.ErrText, o.Panic)))
@@ -786,7 +788,11 @@ func (w *World) CheckSweep(out *Outcome, runs []*Obs) []Violation {
 					continue
 				}
 				if strings.Join(a, ",") != strings.Join(b, ",") {
-					vs = append(vs, v("C10", "wiring-varies-with-order", i.ID+"."+pt.Field, fmt.Sprintf("point %s.%s is not tied (candidates %v) but holds %v in run %s and %v in run %s", i.ID, pt.Field, r.Cands, a, label(ref), b, label(o))))
+					oracle := "wiring-varies-with-order"
+					if w.processorComponentTie() {
+						oracle = "varies-with-the-order-of-unordered-processors"
+					}
+					vs = append(vs, v("C10", oracle, i.ID+"."+pt.Field, fmt.Sprintf("point %s.%s is not tied (candidates %v) but holds %v in run %s and %v in run %s", i.ID, pt.Field, r.Cands, a, label(ref), b, label(o))))
 				}
 			}
 		}
@@ -1033,6 +1039,36 @@ func (w *World) contributedDuplicate() bool {
 	for _, n := range w.Duplicates() {
 		for _, id := range w.ByName[n] {
 			if i := w.Insts[id]; i != nil && i.Contributed {
+				return true
+			}
+		}
+	}
+	return false
+}
+
+// processorComponentTie is the precondition of the D13 finding: the program has a component
+// that is itself a post-processor, and a processor that substitutes or short-circuits which the
+// ordering contract does not place relative to it (both unordered, or one class and one Order).
+// The container creates processor components - and everything they depend on - while it puts
+// the processor list together, one after the other: what is created then is processed only
+// by the processors already in the list, and among participants the contract does not order
+// that is the order in which they were registered.
+func (w *World) processorComponentTie() bool {
+	rank := map[string]int{"priority": 0, "ordered": 1, "": 2, "marker": 2}
+	for _, pr := range w.P.Procs {
+		acts := false
+		for _, ru := range pr.Rules {
+			acts = acts || ru.Action == "substitute" || ru.Action == "self"
+		}
+		if !acts {
+			continue
+		}
+		for _, i := range w.P.Instances {
+			t := w.Types[i.Type]
+			if t == nil || !t.Proc {
+				continue
+			}
+			if rank[pr.OrderClass] == rank[t.OrderClass] && (rank[pr.OrderClass] == 2 || pr.Order == i.Order) {
 				return true
 			}
 		}
